@@ -273,11 +273,12 @@ PROPS.update({
                  "in burst mode (requests back to back, preemption 10-60%, stream/sender channel depth 500/8/2); links are cut at 2-12 seeded moments (every 1-25 ms in burst mode) so that disconnects land while "
                  "transactions are being fanned out; each replica reconnects on a new address; distinct_nontrivial = distinct (schedule hash, #replicas, #connections)"),
         "faults": ["link break at seeded moments", "reconnect after back-off", "seeded preemption at every channel/lock/file operation", "small channel depths"],
-        "assumptions": ["tasks interleave at yield points: the unsynchronised map access of the original code is visible only through its consequences at channel operations (no race-detector build)",
+        "assumptions": ["tasks interleave at yield points (every channel, lock, file, timer operation and go statement); unsynchronised memory accesses in between are decided by a second phase that runs the same engine in the race-detector build (see C18) and counts a data race when at least one of the two accesses is inside the replication package (races elsewhere belong to C18); master and replicas share one process in the simulation but the replication package has no mutable package state, so such a race is between goroutines of one real process",
                         "stalled-but-connected replicas are not injected (outside the property's quantifier)"],
         "explanation": ("oracle: no task panics; every writer returns within 60 virtual seconds of the last disconnect; for each connection the received transactions are a gap-free, ordered run of the master's commit sequence, "
                         "start at most one transaction before the first one fanned out while it was registered, and a connection that stayed up received all of them"),
         "budget": {"quick": 40, "thorough": 900},
+        "race": True, "race_budget": {"quick": 20, "thorough": 300},
     },
     "C33": {
         "level": "fault_enumeration", "engine": "STREAM",
